@@ -47,7 +47,7 @@ CHECKS = {
    text='Each crash image must be rejected by the readers or serve everything completely and correctly; each injected write/seek/flush failure must not yield Ok(()). The inner loops are exhaustive over k for the sampled workloads; the outer loop is seeded search.',
    note='half of the workloads run under a seeded schedule (runs are deterministic, so the fault-free operation log is reproducible under any fixed schedule); a panic counts as not-success and is tallied separately'),
  'C03': dict(engine='readsim', cat='exploration', ref='DESIGN.md §4 C03',
-   technique='deterministic simulation over query histories: one reader instance (plain, cached, reopened) lives through a seeded sequence of get_interval / partial iteration / get_interval_move / values / zoom / reopen operations on SimRead with short reads and EINTR; oracle = input model after every operation',
+   technique='deterministic simulation over query histories: one reader instance (plain, cached, reopened) lives through a seeded sequence of get_interval / partial iteration / get_interval_move / values / zoom / reopen operations on SimRead with short reads, EINTR and (a quarter of the histories) one hard read/seek error inside one operation; oracle = input model after every operation (an operation hit by the hard error may fail, none may answer wrongly)',
    text='After every operation of a history the answer must equal the overlap/clip oracle computed from the input, whatever was asked before; one workload class has 5200 one-item blocks so that the block cache crosses its 5000-entry reset inside a history.',
    note='files are produced by a calm bigtools write (schedule dependence is C11); zero-length values excluded (overlap undefined for them); for empty ranges both answers (nothing / zero-length clip) are accepted'),
  'C04': dict(engine='readsim', cat='exploration', ref='DESIGN.md §4 C04',
